@@ -659,7 +659,7 @@ def explore_steps(res, name, mname, tier, first, upto=None, depth=3):
                     res.violation(v[0], '{} {} sequence {}: {}'.format(name, mname, seq, v[1]), {'part': 'step', 'ode': name, 'method': mname, 'seq': seq})
                 else:
                     res.violation(v[0] + ':history', '{} {} sequence {} (only after the preceding traversal on the same System): {}'.format(name, mname, seq, v[1]),
-                                  {'part': 'step', 'ode': name, 'method': mname, 'first': first, 'upto': seq})
+                                  {'part': 'step', 'ode': name, 'method': mname, 'first': first, 'upto': seq, 'depth': depth})
                 return None
             res.count('traces_validated_against_impl')
             res.distinct('distinct_nontrivial', json.dumps([name, mname, seq]))
@@ -677,7 +677,7 @@ def explore_steps(res, name, mname, tier, first, upto=None, depth=3):
 
 def replay_step(w):
     if 'upto' in w:
-        r = explore_steps(None, w['ode'], w['method'], None, w['first'], upto=w['upto'])
+        r = explore_steps(None, w['ode'], w['method'], None, w['first'], upto=w['upto'], depth=w.get('depth', 3))
         if r is None or r[1] is None:
             return None
         return 'sequence {} after the preceding depth-first traversal: {}'.format(w['upto'], r[1][1])
